@@ -82,6 +82,7 @@ def run_one(seed, tape, opts):
     exp = {"A": tape.pick(EXPECTED, "expA"), "B": tape.pick(EXPECTED, "expB")}
     half = bool(opts.get("half"))
     staged = bool(opts.get("staged"))
+    pausing = not half and tape.choose(2, "pausing") == 0
     w = cc.setup(tape, dict(opts, staged=staged), relay_ok=False, ping=60.0,
                  expected=(exp["A"], exp["B"]))
     sim = w.sim
@@ -89,6 +90,8 @@ def run_one(seed, tape, opts):
         cc.install_greeter(w, tape)
     sim.allow_advance = False     # nothing here depends on deadlines
     faults = cc.L2Faults(w, tape, tape.choose(5 if staged else 3, "fb"))
+    if pausing:
+        faults.budget = max(faults.budget, 2)
     faults.candidate_cuts = False
     cls = HalfRec if half else RecProtocol
     scripts = {}
@@ -121,7 +124,15 @@ def run_one(seed, tape, opts):
                 ops.append(("close", tape.choose(3, "ch")))
             else:
                 ops.append(("aclose", tape.choose(3, "ach")))
+            if pausing and tape.choose(2, "pz") == 0:
+                # slow applications: pause a subchannel for a while (it is
+                # resumed later, or closed while paused)
+                ops.append((tape.pick(("pause", "apause", "pause", "apause",
+                                       "resume", "aresume"), "pzk"),
+                            tape.choose(3, "pzh")))
         scripts[s.name] = interleave(tape, ops, [("listen", n) for n in lnames])
+        if pausing:
+            scripts[s.name].append(("resume_all",))
     wl = cc.Workload(w, tape, max_subs=0, max_ops=0, names=())
     wl.scripts = scripts
     started = set()
@@ -297,6 +308,26 @@ def run_one(seed, tape, opts):
                           (s.name, p.scid, p.lost, other.lost))
     elif not viol:
         sim.note("settle_incomplete")
+        stuck = []
+        for s in w.sides:
+            for p in s.protocols:
+                other = _counterpart(w, s, p)
+                if other is not None and other.data != p.writes:
+                    stuck.append("%s scid %s: peer got %d of %d writes" %
+                                 (s.name, p.scid, len(other.data),
+                                  len(p.writes)))
+            for rec in s.connect_results:
+                if rec[1] == "pending":
+                    stuck.append("%s: connect(%r) still pending" %
+                                 (s.name, rec[0]))
+        V("C13.liveness", "a subchannel opened by one side appears on the "
+          "other side; data written before a close is delivered (once faults "
+          "have stopped and every application has resumed reading)",
+          "not settled %s after the last fault (10000 events / 600 s): "
+          "connected=%s, read-paused ends %s; %s" %
+          (r, w.both_connected(),
+           [e.serial for l in sim.net.links for e in l.ends
+            if e.alive and e.read_paused], "; ".join(stuck[:4])))
     for etype, text, why in w.log.errors:
         sim.note("logged." + etype)
     closed_any = any(p.lost for s in w.sides for p in s.protocols)
